@@ -103,7 +103,7 @@ func init() {
 		},
 		Run:            c15Run,
 		Floor:          func(tier string) int { return 5000 },
-		Rule:           "complete enumeration: 55 operators x input count 0..max+2 (Concat 0..6) x each of the 14 element types at each supplied position (other positions carry an allowed type) x nil at each optional position (alone and combined with every type probe at every other position), through Operator.ValidateInputs of a fresh instance from opset13.GetOperator; arities cross-checked against an independent table typed in from the ONNX spec. Then 400 registry cases: every name resolves, repeated lookups are state-independent (a fresh instance prints identically before and after another instance of the same name was Init-ed with non-default attributes and applied), foreign names yield ErrUnsupportedOperator; and single-node models observed through the operator proxy: a rejected gate is never followed by an apply event. A gate case is non-trivial when it is rejected or pads optional inputs; distinct = distinct (op, count, position, dtype, nil position).",
+		Rule:           "complete enumeration: 55 operators x input count 0..max+2 (Concat 0..6) x each of the 14 element types at each supplied position (other positions carry an allowed type) x nil at each optional position (alone and combined with every type probe at every other position); every second list is a prefix of a larger array with other tensors behind its length, through Operator.ValidateInputs of a fresh instance from opset13.GetOperator; arities cross-checked against an independent table typed in from the ONNX spec. Then 400 registry cases: every name resolves, repeated lookups are state-independent (a fresh instance prints identically before and after another instance of the same name was Init-ed with non-default attributes and applied), foreign names yield ErrUnsupportedOperator; and single-node models observed through the operator proxy: a rejected gate is never followed by an apply event. A gate case is non-trivial when it is rejected or pads optional inputs; distinct = distinct (op, count, position, dtype, nil position).",
 		Exhaustive:     func(tier string) bool { return true },
 		RaceInThorough: true,
 		Technique:      "runtime monitoring: exhaustive enumeration of the finite gate space against the operators' declared constraints and an independent ONNX arity table; proxy trace check 'no apply after a failed validate'",
@@ -195,6 +195,17 @@ func c15Gate(c *Ctx, gc gateCase) error {
 		if !variadic && i < max && !allowedAt(i, d) {
 			expectTypeErr = true
 		}
+	}
+	if c.Idx%2 == 1 {
+		// the list is a prefix of a larger array that holds other tensors behind its
+		// length (a caller's scratch buffer): what lies behind len is not part of the list
+		full := make([]tensor.Tensor, gc.n+4)
+		copy(full, in)
+		for j := gc.n; j < len(full); j++ {
+			full[j] = tensor.New(tensor.WithShape(2), tensor.WithBacking([]bool{true, false}))
+		}
+		in = full[:gc.n]
+		c.Count("gate:list-with-spare-capacity", 1)
 	}
 	supplied := append([]tensor.Tensor{}, in...)
 	fps := make([]mon.Fingerprint, len(in))
@@ -390,7 +401,9 @@ func c15Independence(c *Ctx, name string) {
 func c15ForeignModel(c *Ctx, name string) {
 	r := c.R
 	x := r.Tensor(ref.F32, []int{2, 3}, gen.FillSmall, 4)
-	relu := func(in, out string) mon.GNode { return mon.GNode{Op: "Relu", Inputs: []string{in}, Outputs: []string{out}} }
+	relu := func(in, out string) mon.GNode {
+		return mon.GNode{Op: "Relu", Inputs: []string{in}, Outputs: []string{out}}
+	}
 	foreign := mon.GNode{Op: name, Inputs: []string{"a"}, Outputs: []string{"b"}}
 	var nodes []mon.GNode
 	layout := r.Intn(6)
